@@ -122,8 +122,10 @@ def rule_lay2(ctx: Ctx) -> RuleResult:
         apps = [c for s in l1.body for c in ast.walk(s) if isinstance(c, ast.Call) and isinstance(c.func, ast.Attribute)
                 and c.func.attr == "append" and any(any(x is k for x in ast.walk(c)) for k in ctor)]
         paths = enumerate_paths(l1.body)
-        ok = len(rec) == 1 and len(ctor) == 1 and len(apps) == 1 and len(paths) == 1
-        why = f"recursions={len(rec)} generators={len(ctor)} appended={len(apps)} paths={len(paths)}"
+        fwd = bool(rec) and [norm(a) for a in rec[0].args[1:3]] == g.params[1:3]
+        ok = len(rec) == 1 and len(ctor) == 1 and len(apps) == 1 and len(paths) == 1 and fwd
+        why = f"recursions={len(rec)} generators={len(ctor)} appended={len(apps)} paths={len(paths)} " \
+              f"generator class and options forwarded to the recursion={fwd}"
     rr.ob(g.relpath, g.qualname, "for data in structure: ...", "for every structure entry: its nested entries are rendered "
           "recursively and exactly one generator is created for its model, unconditionally", DISCHARGED if ok else VIOLATED, why,
           g.node.lineno)
@@ -143,31 +145,6 @@ def rule_lay2(ctx: Ctx) -> RuleResult:
         why = f"generate calls={len(gens)} class appends={len(cls_app)} nested texts passed={nested_ok}"
     rr.ob(g.relpath, g.qualname, "for gen, nested_classes in generators: ...", "every generator renders once, receives the "
           "texts of its nested classes, and its class text is appended once", DISCHARGED if ok else VIOLATED, why, g.node.lineno)
-    # imports returned by the recursion and by each generator are all accumulated into the returned list
-    for fn in [g] + [x for x in prog.module("json_to_models/models/base.py").all_funcs
-                     if x.name in ("_render_generators", "_create_generators") and x is not g]:
-        rets = [n for n in walk_no_nested(fn.node) if isinstance(n, ast.Return) and isinstance(n.value, ast.Tuple)]
-        if not rets:
-            continue
-        acc = norm(rets[0].value.elts[0])
-        for n in walk_no_nested(fn.node):
-            if isinstance(n, ast.Assign) and isinstance(n.targets[0], ast.Tuple) and len(n.targets[0].elts) == 2 and \
-                    isinstance(n.value, ast.Call):
-                callee = norm(n.value.func).split(".")[-1]
-                if callee not in (g.name, "generate", "_render_generators"):
-                    continue
-                rr.instances += 1
-                part = norm(n.targets[0].elts[0])
-                from ..util import enclosing_block as _eb
-                blk = _eb(fn.module, n)
-                ext = [c for c in walk_no_nested(fn.node) if isinstance(c, ast.Call) and norm(c.func) == f"{acc}.extend"
-                       and c.args and norm(c.args[0]) == part]
-                ok = part != acc and bool(ext) and blk is not None and any(follows_unconditionally_(blk, n, c) for c in ext)
-                rr.ob(fn.relpath, fn.qualname, norm(n)[:70], f"the imports returned by `{callee}` are added to the list the "
-                      f"function returns", DISCHARGED if ok else VIOLATED,
-                      f"{acc}.extend({part})" if ok else (f"the result is unpacked into the accumulator `{acc}` itself: imports "
-                      f"collected so far (earlier siblings' nested classes) are discarded" if part == acc else
-                      f"`{part}` is never added to `{acc}`: names used by those classes are not imported"), n.lineno)
     # generate_code joins exactly those classes
     gc = prog.func("json_to_models/models/base.py", "generate_code")
     rr.instances += 1
@@ -246,4 +223,37 @@ def rule_lay3(ctx: Ctx) -> RuleResult:
     rr.ob("json_to_models/cli.py", "Cli", f"STRUCTURE_FN_MAPPING -> {vals}", "both layouts are produced by these two functions "
           "and rendered by the same _generate_code", DISCHARGED if ok else VIOLATED, "as expected" if ok else "layout table changed",
           cli.node.lineno)
+    return rr
+
+
+def rule_imp4(ctx: Ctx) -> RuleResult:
+    """IMP-4: imports returned by the recursion and by each generator are all accumulated into the returned list."""
+    rr = RuleResult("IMP-4", "imports of nested classes and of each class reach the module's import block", floor=2)
+    prog = ctx.prog
+    g = prog.func("json_to_models/models/base.py", "_generate_code")
+    # imports returned by the recursion and by each generator are all accumulated into the returned list
+    for fn in [g] + [x for x in prog.module("json_to_models/models/base.py").all_funcs
+                     if x.name in ("_render_generators", "_create_generators") and x is not g]:
+        rets = [n for n in walk_no_nested(fn.node) if isinstance(n, ast.Return) and isinstance(n.value, ast.Tuple)]
+        if not rets:
+            continue
+        acc = norm(rets[0].value.elts[0])
+        for n in walk_no_nested(fn.node):
+            if isinstance(n, ast.Assign) and isinstance(n.targets[0], ast.Tuple) and len(n.targets[0].elts) == 2 and \
+                    isinstance(n.value, ast.Call):
+                callee = norm(n.value.func).split(".")[-1]
+                if callee not in (g.name, "generate", "_render_generators"):
+                    continue
+                rr.instances += 1
+                part = norm(n.targets[0].elts[0])
+                from ..util import enclosing_block as _eb
+                blk = _eb(fn.module, n)
+                ext = [c for c in walk_no_nested(fn.node) if isinstance(c, ast.Call) and norm(c.func) == f"{acc}.extend"
+                       and c.args and norm(c.args[0]) == part]
+                ok = part != acc and bool(ext) and blk is not None and any(follows_unconditionally_(blk, n, c) for c in ext)
+                rr.ob(fn.relpath, fn.qualname, norm(n)[:70], f"the imports returned by `{callee}` are added to the list the "
+                      f"function returns", DISCHARGED if ok else VIOLATED,
+                      f"{acc}.extend({part})" if ok else (f"the result is unpacked into the accumulator `{acc}` itself: imports "
+                      f"collected so far (earlier siblings' nested classes) are discarded" if part == acc else
+                      f"`{part}` is never added to `{acc}`: names used by those classes are not imported"), n.lineno)
     return rr
